@@ -80,7 +80,7 @@ def cmd_check(sid, props, tier, seed=None):
     dst = os.path.join(VERIF, "seeded", sid)
     vp = os.path.join(dst, "verif.json")
     v = json.load(open(vp)) if os.path.exists(vp) else {}
-    props = props or [v.get("property")]
+    props = props or v.get("check_props") or [v.get("property")]
     d, repo = scratch(os.path.join(dst, "patch.diff"))
     res = {}
     try:
